@@ -11,6 +11,8 @@ use std::mem;
 use std::ptr::NonNull;
 
 const B: usize = 6;
+/// Maximum count of key-value pairs in a node.
+const CAPACITY: usize = 2 * B - 1;
 
 /// Helper function, returns true if structure member name exists and starts with `starts_with` string.
 fn assert_member_name(member: &StructureMember, starts_with: &str) -> bool {
@@ -204,6 +206,11 @@ impl Leaf {
         let len = u16::from_ne_bytes(len_bytes.try_into().map_err(|data: Vec<_>| {
             AssumeError::UnexpectedBinaryRepr("leaf node len", 2, data.len())
         })?);
+        // node is read from debugee memory and may contain any garbage (uninitialized map),
+        // a length greater than node capacity leads out of bounds of keys and values arrays
+        if len as usize > CAPACITY {
+            return Err(AssumeError::IncompleteInterp("btree node (len)"));
+        }
         let parent_idx_bytes = markup
             .parent_idx
             .value(evcx, r#type, &data)
@@ -421,6 +428,11 @@ impl Handle {
         evcx: &EvaluationContext,
         reflection: &BTreeReflection,
     ) -> Result<Option<Handle>, ParsingError> {
+        // a node at the root height has no parent, whatever its (possibly corrupted and cyclic)
+        // parent pointer says
+        if self.node.height >= reflection.root_h {
+            return Ok(None);
+        }
         let leaf = self.node.data.leaf();
         let parent = match leaf.parent {
             None => return Ok(None),
